@@ -1,11 +1,14 @@
 """Registered checks C06 (C07, C09, C13 follow)."""
 from . import hydro_checks as HY
 from . import shift_checks as SH
+from . import ref_checks as RF
 
 
 def dispatch_replay(chk, rp):
     if rp.get("kind") == "hydro":
         return HY.replay_file(chk, rp)
+    if rp.get("kind") == "ref":
+        return RF.replay_file(chk, rp)
     if rp.get("kind") == "shift":
         return SH.replay_file(chk, rp)
     raise SystemExit("cannot replay kind %r; re-run the check" % rp.get("kind"))
@@ -14,4 +17,5 @@ def dispatch_replay(chk, rp):
 REGISTRY = {
     "C06": {"run": HY.c06, "replay": dispatch_replay},
     "C07": {"run": SH.c07, "replay": dispatch_replay},
+    "C09": {"run": RF.c09, "replay": dispatch_replay},
 }
